@@ -98,6 +98,8 @@ class Model:
             except TypeError:
                 rng = self.random.randint(0, sys.maxsize)
                 self.rng: np.random.Generator = np.random.default_rng(rng)
+                # back to the start of the stream, which is what reset_randomizer() replays
+                self.random.seed(seed)
             self._rng = self.rng.bit_generator.state
 
         # Wrap the user-defined step method
